@@ -48,8 +48,18 @@ func TestVPReplay(t *testing.T) {
 		fn()
 	}
 	if !in.Threaded {
-		vpReset(&in)
-		body()
+		// sequential harness: repeat when the library draws random numbers the replay cannot control
+		n := in.Repeat
+		if n < 1 {
+			n = 1
+		}
+		for i := 0; i < n; i++ {
+			vpReset(&in)
+			body()
+			if len(vpR.out.Failed) > 0 || vpR.out.Panic != "" {
+				break
+			}
+		}
 		write()
 		return
 	}
